@@ -64,6 +64,9 @@ func (ex *Exec) atReturn(st *State, r *ssa.Return) {
 			eo.vars[l.Label] = lv
 		}
 		for i, cl := range c.Ensures {
+			if ex.con != nil && ex.con.Except[c.Target][cl.Label] && cl.Label != "" {
+				continue // `include ... except`: this function does not promise that clause
+			}
 			name := fmt.Sprintf("ensures#%d", i+1)
 			if cl.Label != "" {
 				name = "ensures:" + cl.Label
@@ -882,6 +885,9 @@ func (ex *Exec) applyContract(st *State, c *ssa.Call, con0 *Contract, bindings [
 		e.old = pre
 		e.allocLo = preAlloc
 		for _, cl := range con.Ensures {
+			if con0.Except[con.Target][cl.Label] && cl.Label != "" {
+				continue
+			}
 			st.sc.comment("callee ensures %s", cl.Text)
 			st.sc.assert(e.eval(cl.Expr))
 		}
